@@ -1,5 +1,5 @@
 (* C11 -- the theorems about the Thread messaging LTS (Conc/ThreadQ.v), from the invariants of ThreadQWf / ThreadQWake. *)
-From Coq Require Import List Arith Bool Lia.
+From Coq Require Import List Arith Bool Lia NArith.
 From Muscle Require Import Conc.ThreadQ Conc.ThreadQWf Conc.ThreadQWake.
 Import ListNotations.
 
@@ -20,12 +20,13 @@ Definition blocked (g : gst) (l : local) : bool :=
 Section Enabled.
 Variable early : bool.
 Variable absorb_n : nat.
+Variable no_limit : N.
 Variable react : nat -> list msg * bool.
 
 Lemma fin_some : forall g r k e, exists x, fin react g r k e = Some x.
 Proof. intros. unfold fin. destruct (ret react (g_evd g) r k) as [[p k'] e']. eauto. Qed.
 
-Lemma step_enabled : forall g l, blocked g l = false -> exists x, step early absorb_n react CRun g l = Some x.
+Lemma step_enabled : forall g l, blocked g l = false -> exists x, step early absorb_n no_limit react CRun g l = Some x.
 Proof.
   intros g [p k] Hb. unfold blocked in Hb. simpl in Hb. unfold step. simpl.
   destruct p; try discriminate; unfold goto;
@@ -59,14 +60,15 @@ Definition S_inv (s : sys) : Prop :=
 
 Section Shutdown.
 Variable absorb_n : nat.
+Variable no_limit : N.
 Variable react : nat -> list msg * bool.
 Variable ok : label -> bool.
 Variables smode emode : bool.
 
 (* StartInternalThread as repaired *)
-Notation Step := (Step false absorb_n react).
-Notation sys_step := (sys_step false absorb_n react).
-Notation reachable_if := (reachable_if false absorb_n react).
+Notation Step := (Step false absorb_n no_limit react).
+Notation sys_step := (sys_step false absorb_n no_limit react).
+Notation reachable_if := (reachable_if false absorb_n no_limit react).
 
 Ltac destr_k k := destruct k as [|[] [|? ?]]; try contradiction.
 Ltac kill_ret :=
@@ -81,7 +83,7 @@ Lemma Step_user_qi_grows : forall t c g l g' l' ev, upc_ok t l -> Step c g l g' 
   (In None (c_q (g_ci g)) -> In None (c_q (g_ci g'))).
 Proof.
   intros t c g l g' l' ev Hu HS Hin.
-  destruct (Step_qi_user absorb_n react _ _ _ _ _ _ _ Hu HS) as [Q | [m Hm]]; [rewrite Q; exact Hin|].
+  destruct (Step_qi_user absorb_n no_limit react _ _ _ _ _ _ _ Hu HS) as [Q | [m Hm]]; [rewrite Q; exact Hin|].
   inversion HS; subst; simpl in Hm; try discriminate. inv Hm. simpl. apply in_or_app. left. exact Hin.
 Qed.
 
@@ -101,7 +103,7 @@ Proof.
     + unfold sh_wait. simpl. destruct (pc_of_op o); try discriminate; destruct c; discriminate.
     + exact Sv.
   - (* a user thread's step *)
-    destruct (step false absorb_n react c (s_g s) (s_l s t)) as [[[g' l'] e']|] eqn:Hst; [|discriminate]. inv H.
+    destruct (step false absorb_n no_limit react c (s_g s) (s_l s t)) as [[[g' l'] e']|] eqn:Hst; [|discriminate]. inv H.
     apply step_spec in Hst.
     destruct (s_l s t) as [p k] eqn:El.
     assert (Hu : upc_ok t (mkL p k)) by (rewrite <- El; apply (wf_upc _ _ _ W)).
@@ -117,14 +119,14 @@ Proof.
         [ (* the NULL Message is appended *)
           left; unfold enq; simpl; apply in_or_app; right; left; reflexivity
         | (* its signal *)
-          match goal with Hs : signal _ _ = _ |- _ => apply signal_frame in Hs;
+          match goal with Hs : signal _ _ _ = _ |- _ => apply signal_frame in Hs;
             destruct Hs as (_ & _ & _ & _ & _ & F6 & F7 & _ & F9 & _) end;
           rewrite F6, F7; destruct (F9 CI) as (Q & _); simpl in Q; rewrite Q; apply Sv; rewrite El; reflexivity
         | apply Sv; rewrite El; reflexivity ].
     + (* another thread's step: it can only be sending *)
       intros Hw. specialize (Sv Hw).
       assert (Hsame : g_ist g' = g_ist (s_g s) /\ g_il g' = g_il (s_g s)).
-      { destruct (Step_running _ _ _ _ _ _ _ _ _ Hst) as [[n Hn] | [Hj | [Hx | (R1 & R2 & R3 & R4)]]]; simpl in *; auto;
+      { destruct (Step_running _ _ _ _ _ _ _ _ _ _ Hst) as [[n Hn] | [Hj | [Hx | (R1 & R2 & R3 & R4)]]]; simpl in *; auto;
           subst p; unfold upc_ok in Hu; simpl in Hu; try contradiction.
         - destruct k; [congruence | contradiction].
         - destruct k as [|[] [|]]; try contradiction; congruence. }
@@ -133,7 +135,7 @@ Proof.
       eapply Step_user_qi_grows; eauto.
   - (* the internal thread's step *)
     destruct (g_ist (s_g s)) eqn:Hl; try discriminate.
-    destruct (step false absorb_n react c (s_g s) (g_il (s_g s))) as [[[g' l'] e']|] eqn:Hst; [|discriminate]. inv H.
+    destruct (step false absorb_n no_limit react c (s_g s) (g_il (s_g s))) as [[[g' l'] e']|] eqn:Hst; [|discriminate]. inv H.
     apply step_spec in Hst.
     destruct (g_il (s_g s)) as [p k] eqn:El.
     assert (Hi : ipc_ok (mkL p k)) by (rewrite <- El; apply (wf_ipc _ _ _ W); exact Hl).
@@ -147,7 +149,7 @@ Proof.
     all: try (destruct Sv' as [A | B]; [left; simpl; exact A | simpl in B; try discriminate]; fail).
     + (* a signal: the queue is unchanged *)
       destruct Sv' as [A | B]; [|simpl in B; discriminate]. left.
-      match goal with Hs : signal _ _ = _ |- _ => apply signal_frame in Hs; destruct Hs as (_&_&_&_&_&_&_&_&F9&_) end.
+      match goal with Hs : signal _ _ _ = _ |- _ => apply signal_frame in Hs; destruct Hs as (_&_&_&_&_&_&_&_&F9&_) end.
       destruct (F9 CI) as (Q & _). simpl in Q. rewrite Q. exact A.
     + (* absorb *)
       destruct Sv' as [A | B]; [|simpl in B; discriminate]. left.
@@ -162,7 +164,7 @@ Proof.
       destr_k k. kill_ret. right. right. split; [exact Hl | reflexivity].
     + (* the start-up signal *)
       destruct Sv' as [A | B]; [|simpl in B; discriminate]. left.
-      match goal with Hs : signal _ _ = _ |- _ => apply signal_frame in Hs; destruct Hs as (_&_&_&_&_&_&_&_&F9&_) end.
+      match goal with Hs : signal _ _ _ = _ |- _ => apply signal_frame in Hs; destruct Hs as (_&_&_&_&_&_&_&_&F9&_) end.
       destruct (F9 CI) as (Q & _). simpl in Q. rewrite Q. exact A.
     + (* the thread finishes *)
       right. left. reflexivity.
@@ -177,17 +179,78 @@ Qed.
 
 End Shutdown.
 
-(* ---------- several steps ---------- *)
+(* ---------- the pending-notification counts are uint32 values (they saturate, they never wrap) ---------- *)
 
-Section Multi.
+Definition wcb (nl : N) (g : gst) : Prop := forall c, (c_wc (ch g c) <= nl)%N.
+
+Lemma wc_inc_bound : forall old, (old <= 4294967295)%N -> (wc_inc 4294967295 old <= 4294967295)%N.
+Proof.
+  intros old H. unfold wc_inc.
+  destruct (N.ltb_spec old ((old + 1) mod 4294967296)); [|lia].
+  assert ((old + 1) mod 4294967296 < 4294967296)%N by (apply N.mod_lt; lia). lia.
+Qed.
+
+Section WcBound.
 Variable early : bool.
 Variable absorb_n : nat.
 Variable react : nat -> list msg * bool.
 Variable ok : label -> bool.
 Variables smode emode : bool.
+Notation NL := 4294967295%N.
 
-Notation sys_step := (sys_step early absorb_n react).
-Notation reachable_if := (reachable_if early absorb_n react).
+Lemma signal_wcb : forall c g g' e, signal NL c g = (g', e) -> wcb NL g -> wcb NL g'.
+Proof.
+  intros c g g' e H B. unfold signal in H.
+  destruct (g_sockets g); [destruct c; [destruct (g_alloc g); [destruct (g_iopen g)|] | destruct (g_alloc g && g_iopen g)]|];
+    inv H; auto; intros c'; specialize (B c'); try (destruct c'; simpl; exact B).
+  destruct c, c'; simpl in *; auto; apply wc_inc_bound; exact B.
+Qed.
+
+Lemma Step_wcb : forall c g l g' l' ev, Step early absorb_n NL react c g l g' l' ev -> wcb NL g -> wcb NL g'.
+Proof.
+  intros c g l g' l' ev HS B. inversion HS; subst; clear HS; auto;
+    try (eapply signal_wcb; eauto; fail);
+    intros c'; specialize (B c');
+    try (destruct x, c'; simpl in *; try exact B; lia).
+  - pose proof (absorb_frame absorb_n x g) as F. simpl in F. destruct F as (_&_&_&_&_&_&_&_&F&_).
+    destruct (F c') as (_ & _ & _ & Q). rewrite Q. exact B.
+  - pose proof (alloc_frame g) as F. simpl in F. destruct F as (_&_&_&_&_&_&F).
+    destruct (F c') as (_ & _ & _ & Q). unfold spawned. destruct c'; simpl in *; rewrite Q; exact B.
+  - pose proof (close_frame g) as F. simpl in F. destruct F as (_&_&_&_&_&_&F).
+    destruct (F c') as (_ & _ & _ & Q). unfold joined. destruct c'; simpl in *; rewrite Q; exact B.
+  - pose proof (alloc_frame g) as F. simpl in F. destruct F as (_&_&_&_&_&_&F).
+    destruct (F c') as (_ & _ & _ & Q). rewrite Q. exact B.
+  - unfold exited. destruct c'; simpl; destruct (g_sockets g); simpl; exact B.
+Qed.
+
+Theorem notification_counts_are_uint32 : forall s, reachable_if early absorb_n NL react ok smode emode s -> wcb NL (s_g s).
+Proof.
+  intros s H. induction H.
+  - intros []; simpl; lia.
+  - destruct lab as [t o | [t|] c]; simpl in H1.
+    + destruct (begin_op t o (s_l s t)); [|discriminate]. inv H1. exact IHreachable_if.
+    + destruct (step early absorb_n NL react c (s_g s) (s_l s t)) as [[[g' l'] e']|] eqn:Hst; [|discriminate]. inv H1.
+      eapply Step_wcb; [eapply step_spec; eauto | exact IHreachable_if].
+    + destruct (g_ist (s_g s)); try discriminate.
+      destruct (step early absorb_n NL react c (s_g s) (g_il (s_g s))) as [[[g' l'] e']|] eqn:Hst; [|discriminate]. inv H1.
+      apply step_spec in Hst. apply Step_wcb in Hst; [|exact IHreachable_if].
+      intros c'. specialize (Hst c'). destruct c'; exact Hst.
+Qed.
+
+End WcBound.
+
+(* ---------- several steps ---------- *)
+
+Section Multi.
+Variable early : bool.
+Variable absorb_n : nat.
+Variable no_limit : N.
+Variable react : nat -> list msg * bool.
+Variable ok : label -> bool.
+Variables smode emode : bool.
+
+Notation sys_step := (sys_step early absorb_n no_limit react).
+Notation reachable_if := (reachable_if early absorb_n no_limit react).
 
 Inductive steps_if : sys -> sys -> Prop :=
 | steps_refl : forall s, steps_if s s
@@ -222,8 +285,8 @@ Theorem fifo_no_overtaking : forall s s' c,
     got ++ c_q (ch (s_g s') c) = c_q (ch (s_g s) c) ++ more.
 Proof.
   intros s s' c R St.
-  pose proof (reachable_fifo _ _ _ _ _ _ _ R c) as F.
-  pose proof (reachable_fifo _ _ _ _ _ _ _ (steps_reachable _ _ St R) c) as F'.
+  pose proof (reachable_fifo _ _ _ _ _ _ _ _ R c) as F.
+  pose proof (reachable_fifo _ _ _ _ _ _ _ _ (steps_reachable _ _ St R) c) as F'.
   destruct (steps_hist _ _ St c) as (a & b & Ea & Eb).
   exists b, a. repeat split; auto.
   rewrite Ea, Eb, F in F'. rewrite <- !app_assoc in F'. apply app_inv_head in F'. auto.
@@ -237,24 +300,26 @@ Definition J_inv (s : sys) : Prop := l_pc (s_l s 0) = PJoinWait -> g_running (s_
 
 Section Theorems.
 Variable absorb_n : nat.
+Variable no_limit : N.
 Variable react : nat -> list msg * bool.
+Hypothesis Hnl : (0 < no_limit)%N.
 Variable ok : label -> bool.
 Variables smode emode : bool.
 
 (* StartInternalThread as repaired *)
-Notation sys_step := (sys_step false absorb_n react).
-Notation reachable_if := (reachable_if false absorb_n react).
+Notation sys_step := (sys_step false absorb_n no_limit react).
+Notation reachable_if := (reachable_if false absorb_n no_limit react).
 Notation R := (reachable_if ok smode emode).
 
 Lemma int_enabled : forall s, g_ist (s_g s) = ILive -> blocked (s_g s) (g_il (s_g s)) = false ->
   exists x, sys_step s (LStep I CRun) = Some x.
 Proof.
-  intros s Hl Hb. simpl. rewrite Hl. destruct (step_enabled false absorb_n react _ _ Hb) as [[[g' l'] e] Hx]. rewrite Hx. eauto.
+  intros s Hl Hb. simpl. rewrite Hl. destruct (step_enabled false absorb_n no_limit react _ _ Hb) as [[[g' l'] e] Hx]. rewrite Hx. eauto.
 Qed.
 
 Lemma user_enabled : forall s t, blocked (s_g s) (s_l s t) = false -> exists x, sys_step s (LStep (U t) CRun) = Some x.
 Proof.
-  intros s t Hb. simpl. destruct (step_enabled false absorb_n react _ _ Hb) as [[[g' l'] e] Hx]. rewrite Hx. eauto.
+  intros s t Hb. simpl. destruct (step_enabled false absorb_n no_limit react _ _ Hb) as [[[g' l'] e] Hx]. rewrite Hx. eauto.
 Qed.
 
 Lemma ipc_looks_unblocked : forall g l evd, ipc_ok l -> will_look evd (l_pc l) = true -> blocked g l = false.
@@ -285,7 +350,7 @@ Theorem no_lost_wakeup_internal : forall s,
   c_q (g_ci (s_g s)) <> [] ->
   readable (s_g s) CI = true \/ exists t, is_pend_i (l_pc (s_l s t)) = true.
 Proof.
-  intros s Rs Hl Hp Hq. pose proof (reachable_wake absorb_n react ok smode emode s Rs) as Wk.
+  intros s Rs Hl Hp Hq. pose proof (reachable_wake absorb_n no_limit react Hnl ok smode emode s Rs) as Wk.
   apply (wk_ai _ Wk); auto. destruct Hp as [[w ->] | ->]; reflexivity.
 Qed.
 
@@ -296,7 +361,7 @@ Theorem no_lost_wakeup_owner : forall s w,
   readable (s_g s) CO = true \/ (exists t, l_pc (s_l s t) = PSendSig CO true) \/
   (g_ist (s_g s) = ILive /\ l_pc (g_il (s_g s)) = PSendSig CO true).
 Proof.
-  intros s w Rs Hp Hq. pose proof (reachable_wake absorb_n react ok smode emode s Rs) as Wk.
+  intros s w Rs Hp Hq. pose proof (reachable_wake absorb_n no_limit react Hnl ok smode emode s Rs) as Wk.
   assert (P : parked_o s = true) by (unfold parked_o; rewrite Hp; reflexivity).
   destruct (wk_ao _ Wk P Hq) as [A | [[t B] | [C D]]]; auto.
   - right. left. exists t. destruct (l_pc (s_l s t)); try discriminate. destruct c; try discriminate. destruct first; [reflexivity | discriminate].
@@ -311,8 +376,8 @@ Theorem internal_never_stuck : forall s,
   (exists t x, is_pend_i (l_pc (s_l s t)) = true /\ sys_step s (LStep (U t) CRun) = Some x).
 Proof.
   intros s Rs Hl Hq.
-  pose proof (reachable_wake absorb_n react ok smode emode s Rs) as Wk.
-  pose proof (reachable_wf false absorb_n react ok smode emode s Rs) as W.
+  pose proof (reachable_wake absorb_n no_limit react Hnl ok smode emode s Rs) as Wk.
+  pose proof (reachable_wf false absorb_n no_limit react ok smode emode s Rs) as W.
   pose proof (wf_ipc _ _ _ W Hl) as Hi.
   destruct (will_look (g_evd (s_g s)) (l_pc (g_il (s_g s)))) eqn:Hw.
   - left. apply int_enabled; auto. eapply ipc_looks_unblocked; eauto.
@@ -346,7 +411,7 @@ Proof.
     destruct (allowed t o) eqn:Ha; [|discriminate]. inv Hb.
     unfold J_inv in *. simpl. unfold upd. destruct (Nat.eqb_spec 0 t) as [<- | Ht]; [|exact Jv].
     simpl. destruct o; simpl; discriminate.
-  - destruct (step false absorb_n react c (s_g s) (s_l s t)) as [[[g' l'] e']|] eqn:Hst; [|discriminate]. inv H.
+  - destruct (step false absorb_n no_limit react c (s_g s) (s_l s t)) as [[[g' l'] e']|] eqn:Hst; [|discriminate]. inv H.
     apply step_spec in Hst.
     destruct (s_l s t) as [p k] eqn:El.
     assert (Hu : upc_ok t (mkL p k)) by (rewrite <- El; apply (wf_upc _ _ _ W)).
@@ -361,18 +426,18 @@ Proof.
         | Hr : (_, _, _) = (_, _, _) |- _ => inv Hr
         end; try discriminate.
     + intros Hq. specialize (Jv Hq).
-      destruct (Step_running _ _ _ _ _ _ _ _ _ Hst) as [[n Hn] | [Hj | [Hx | (R1 & _)]]]; simpl in *;
+      destruct (Step_running _ _ _ _ _ _ _ _ _ _ Hst) as [[n Hn] | [Hj | [Hx | (R1 & _)]]]; simpl in *;
         try (subst p; unfold upc_ok in Hu; simpl in Hu; try contradiction).
       * destruct k; [congruence | contradiction].
       * destruct k as [|[] [|]]; try contradiction; congruence.
       * congruence.
   - destruct (g_ist (s_g s)) eqn:Hl; try discriminate.
-    destruct (step false absorb_n react c (s_g s) (g_il (s_g s))) as [[[g' l'] e']|] eqn:Hst; [|discriminate]. inv H.
+    destruct (step false absorb_n no_limit react c (s_g s) (g_il (s_g s))) as [[[g' l'] e']|] eqn:Hst; [|discriminate]. inv H.
     apply step_spec in Hst.
     destruct (g_il (s_g s)) as [p k] eqn:El.
     assert (Hi : ipc_ok (mkL p k)) by (rewrite <- El; apply (wf_ipc _ _ _ W); exact Hl).
     unfold J_inv in *. simpl. intros Hq. specialize (Jv Hq).
-    destruct (Step_running _ _ _ _ _ _ _ _ _ Hst) as [[n Hn] | [Hj | [Hx | (R1 & _)]]]; simpl in *;
+    destruct (Step_running _ _ _ _ _ _ _ _ _ _ Hst) as [[n Hn] | [Hj | [Hx | (R1 & _)]]]; simpl in *;
       try (subst p; unfold ipc_ok in Hi; simpl in Hi; contradiction).
     * subst p. inversion Hst; subst. simpl. exact Jv.
     * congruence.
@@ -397,8 +462,8 @@ Theorem shutdown_completes : forall s,
     (exists t x, is_pend_i (l_pc (s_l s t)) = true /\ sys_step s (LStep (U t) CRun) = Some x))).
 Proof.
   intros s Rs Hp Hk.
-  pose proof (reachable_wf false absorb_n react ok smode emode s Rs) as W.
-  pose proof (reachable_S absorb_n react ok smode emode s Rs) as Sv.
+  pose proof (reachable_wf false absorb_n no_limit react ok smode emode s Rs) as W.
+  pose proof (reachable_S absorb_n no_limit react ok smode emode s Rs) as Sv.
   pose proof (reachable_J s Rs Hp) as Hr.
   assert (Hw : sh_wait (s_l s 0) = true) by (unfold sh_wait; rewrite Hp, Hk; reflexivity).
   specialize (Sv Hw).
@@ -418,7 +483,7 @@ Qed.
 (* Messages queued before the thread is started are delivered once it starts: they stay queued, in order, ahead of
    everything sent later (fifo_no_overtaking), and a started thread with a non-empty queue is never stuck. *)
 Theorem queued_before_start_delivered : forall s s',
-  R s -> g_running (s_g s) = false -> steps_if false absorb_n react ok s s' ->
+  R s -> g_running (s_g s) = false -> steps_if false absorb_n no_limit react ok s s' ->
   (exists got more,
      c_rcvd (g_ci (s_g s')) = c_rcvd (g_ci (s_g s)) ++ got /\
      got ++ c_q (g_ci (s_g s')) = c_q (g_ci (s_g s)) ++ more) /\
@@ -427,7 +492,7 @@ Theorem queued_before_start_delivered : forall s s',
    (exists t x, is_pend_i (l_pc (s_l s' t)) = true /\ sys_step s' (LStep (U t) CRun) = Some x)).
 Proof.
   intros s s' Rs _ St. split.
-  - destruct (fifo_no_overtaking false absorb_n react ok smode emode s s' CI Rs St) as (got & more & A & _ & C).
+  - destruct (fifo_no_overtaking false absorb_n no_limit react ok smode emode s s' CI Rs St) as (got & more & A & _ & C).
     exists got, more. auto.
   - intros Hl Hq. apply internal_never_stuck; auto. eapply steps_reachable; eauto.
 Qed.
@@ -451,22 +516,23 @@ End Theorems.
 
 Section Final.
 Variable absorb_n : nat.
+Variable no_limit : N.
 Variable react : nat -> list msg * bool.
 
 (* StartInternalThread as repaired *)
-Notation sys_step := (sys_step false absorb_n react).
-Notation reachable_if := (reachable_if false absorb_n react).
+Notation sys_step := (sys_step false absorb_n no_limit react).
+Notation reachable_if := (reachable_if false absorb_n no_limit react).
 
 Theorem fifo_exactly_once : forall ok m e s c, reachable_if ok m e s ->
   c_sent (ch (s_g s) c) = c_rcvd (ch (s_g s) c) ++ c_q (ch (s_g s) c).
-Proof. intros ok m e s c H. exact (reachable_fifo false absorb_n react ok m e s H c). Qed.
+Proof. intros ok m e s c H. exact (reachable_fifo false absorb_n no_limit react ok m e s H c). Qed.
 
 (* the life-cycle flags *)
 Theorem running_iff_thread_exists : forall ok m e s, reachable_if ok m e s ->
   g_running (s_g s) = negb (ist_none (g_ist (s_g s))) /\
   (g_ist (s_g s) = ILive -> g_sockets (s_g s) = true -> g_alloc (s_g s) = true /\ g_iopen (s_g s) = true).
 Proof.
-  intros ok m e s H. pose proof (reachable_wf false absorb_n react ok m e s H) as W.
+  intros ok m e s H. pose proof (reachable_wf false absorb_n no_limit react ok m e s H) as W.
   split; [apply (wf_running _ _ _ W) | apply (wf_live_sock _ _ _ W)].
 Qed.
 
@@ -475,14 +541,15 @@ End Final.
 Section Runs.
 Variable early : bool.
 Variable absorb_n : nat.
+Variable no_limit : N.
 Variable react : nat -> list msg * bool.
 
-Notation sys_step := (sys_step early absorb_n react).
-Notation reachable_if := (reachable_if early absorb_n react).
+Notation sys_step := (sys_step early absorb_n no_limit react).
+Notation reachable_if := (reachable_if early absorb_n no_limit react).
 
 (* ---- executable runs, for the witness and the examples ---- *)
 
-Lemma run_reachable : forall ok m e labs s s', forallb ok labs = true -> run early absorb_n react s labs = Some s' ->
+Lemma run_reachable : forall ok m e labs s s', forallb ok labs = true -> run early absorb_n no_limit react s labs = Some s' ->
   reachable_if ok m e s -> reachable_if ok m e s'.
 Proof.
   intros ok m e labs. induction labs as [|lab r IH]; intros s s' Hok H Rs; simpl in *.
@@ -506,14 +573,14 @@ Definition refute_labels : list label :=
     LStep (U 0) CRun; LStep (U 0) CRun;
     LStep I CRun; LStep I CRun; LStep I CRun; LStep I CRun; LStep I CRun ].
 
-Theorem evd_lost_wakeup_refuted : forall absorb_n react,
-  exists s, reachable true absorb_n react true true s /\
+Theorem evd_lost_wakeup_refuted : forall absorb_n no_limit react,
+  exists s, reachable true absorb_n no_limit react true true s /\
     g_ist (s_g s) = ILive /\ l_pc (g_il (s_g s)) = PIEvWait /\ c_q (g_ci (s_g s)) = [Some 7] /\
     readable (s_g s) CI = false /\ (forall t, l_pc (s_l s t) = PIdle) /\
-    (forall w c, sys_step true absorb_n react s (LStep w c) = None).
+    (forall w c, sys_step true absorb_n no_limit react s (LStep w c) = None).
 Proof.
-  intros absorb_n react.
-  destruct (run true absorb_n react (sys0 true true) refute_labels) as [s|] eqn:Hr; [|vm_compute in Hr; discriminate].
+  intros absorb_n no_limit react.
+  destruct (run true absorb_n no_limit react (sys0 true true) refute_labels) as [s|] eqn:Hr; [|vm_compute in Hr; discriminate].
   exists s. split.
   - eapply run_reachable; [|exact Hr | apply reach_init]. reflexivity.
   - vm_compute in Hr. inv Hr. simpl. repeat split; auto.
@@ -545,75 +612,75 @@ Definition int_park_labels : list label :=   (* the default internal thread runs
 
 Ltac by_run labs m e :=
   match goal with
-  | |- exists s, reachable_if ?ea ?a ?r ?ok ?mm ?ee s /\ _ =>
-      destruct (run ea a r (sys0 m e) labs) as [s|] eqn:Hr; [|vm_compute in Hr; discriminate];
+  | |- exists s, reachable_if ?ea ?a ?nl ?r ?ok ?mm ?ee s /\ _ =>
+      destruct (run ea a nl r (sys0 m e) labs) as [s|] eqn:Hr; [|vm_compute in Hr; discriminate];
       exists s; split; [eapply run_reachable; [|exact Hr | apply reach_init]; reflexivity |];
       vm_compute in Hr; inv Hr; simpl
   end.
 
 (* the internal thread is parked, a Message is queued, the sender has not signalled yet *)
-Example ex_internal_parked : forall n, exists s, reachable_if false n react0 any_label true false s /\
+Example ex_internal_parked : forall n nl, exists s, reachable_if false n nl react0 any_label true false s /\
   g_ist (s_g s) = ILive /\ l_pc (g_il (s_g s)) = PRecvPark CI WNever /\ c_q (g_ci (s_g s)) = [Some 5] /\
   readable (s_g s) CI = false /\ l_pc (s_l s 1) = PSendSig CI true.
 Proof.
-  intros n. by_run (start_labels ++ int_park_labels ++ [LBegin 1 (OSend CI (Some 5)); LStep (U 1) CRun]) true false.
+  intros n nl. by_run (start_labels ++ int_park_labels ++ [LBegin 1 (OSend CI (Some 5)); LStep (U 1) CRun]) true false.
   repeat split; reflexivity.
 Qed.
 
 (* the same with the wait-condition *)
-Example ex_internal_parked_wc : forall n, exists s, reachable_if false n react0 any_label false false s /\
+Example ex_internal_parked_wc : forall n nl, exists s, reachable_if false n nl react0 any_label false false s /\
   g_ist (s_g s) = ILive /\ l_pc (g_il (s_g s)) = PRecvPark CI WNever /\ c_q (g_ci (s_g s)) = [Some 5] /\
   readable (s_g s) CI = false /\ l_pc (s_l s 1) = PSendSig CI true.
 Proof.
-  intros n. by_run (start_labels ++ int_park_labels ++ [LBegin 1 (OSend CI (Some 5)); LStep (U 1) CRun]) false false.
+  intros n nl. by_run (start_labels ++ int_park_labels ++ [LBegin 1 (OSend CI (Some 5)); LStep (U 1) CRun]) false false.
   repeat split; reflexivity.
 Qed.
 
 (* the owner is parked on the reply queue, a reply is queued by another thread that has not signalled yet *)
-Example ex_owner_parked : forall n, exists s, reachable_if false n react0 any_label true false s /\
+Example ex_owner_parked : forall n nl, exists s, reachable_if false n nl react0 any_label true false s /\
   l_pc (s_l s 0) = PRecvPark CO WNever /\ c_q (g_co (s_g s)) = [Some 9] /\ l_pc (s_l s 1) = PSendSig CO true.
 Proof.
-  intros n.
+  intros n nl.
   by_run (start_labels ++ [LBegin 0 (ORecv WNever); LStep (U 0) CRun; LStep (U 0) CRun; LStep (U 0) CRun;
                            LBegin 1 (OSend CO (Some 9)); LStep (U 1) CRun]) true false.
   repeat split; reflexivity.
 Qed.
 
 (* the owner waits in the join of ShutdownInternalThread(true) while the NULL Message is still queued *)
-Example ex_shutdown_waiting : forall n, exists s, reachable_if false n react0 any_label true false s /\
+Example ex_shutdown_waiting : forall n nl, exists s, reachable_if false n nl react0 any_label true false s /\
   l_pc (s_l s 0) = PJoinWait /\ l_k (s_l s 0) = [KDiscard] /\ g_ist (s_g s) = ILive /\ c_q (g_ci (s_g s)) = [None].
 Proof.
-  intros n.
+  intros n nl.
   by_run (start_labels ++ [LBegin 0 (OShutdown true); LStep (U 0) CRun; LStep (U 0) CRun; LStep (U 0) CRun; LStep (U 0) CRun]) true false.
   repeat split; reflexivity.
 Qed.
 
 (* ... and after the internal thread has left *)
-Example ex_shutdown_exited : forall n, exists s, reachable_if false n react0 any_label true false s /\
+Example ex_shutdown_exited : forall n nl, exists s, reachable_if false n nl react0 any_label true false s /\
   l_pc (s_l s 0) = PJoinWait /\ l_k (s_l s 0) = [KDiscard] /\ g_ist (s_g s) = IExited.
 Proof.
-  intros n.
+  intros n nl.
   by_run (start_labels ++ [LBegin 0 (OShutdown true); LStep (U 0) CRun; LStep (U 0) CRun; LStep (U 0) CRun; LStep (U 0) CRun] ++
           [LStep I CRun; LStep I CRun; LStep I CRun; LStep I CRun; LStep I CRun; LStep I CRun; LStep I CRun; LStep I CRun]) true false.
   repeat split; reflexivity.
 Qed.
 
 (* Messages queued while the thread is not running (their signal was dropped: no socket pair yet) *)
-Example ex_queued_before_start : forall n, exists s, reachable_if false n react0 any_label true false s /\
+Example ex_queued_before_start : forall n nl, exists s, reachable_if false n nl react0 any_label true false s /\
   g_running (s_g s) = false /\ c_q (g_ci (s_g s)) = [Some 1; Some 2] /\ c_sig (g_ci (s_g s)) = 0 /\ g_alloc (s_g s) = false.
 Proof.
-  intros n.
+  intros n nl.
   by_run [LBegin 0 (OSend CI (Some 1)); LStep (U 0) CRun; LStep (U 0) CRun; LBegin 0 (OSend CI (Some 2)); LStep (U 0) CRun; LStep (U 0) CRun] true false.
   repeat split; reflexivity.
 Qed.
 
 (* the event-driven thread is blocked in its select() with a Message queued before the start (its signal was dropped):
    only StartInternalThread, which has yet to look at the queue, will wake it *)
-Example ex_evd_parked : forall n, exists s, reachable_if false n react0 any_label true true s /\
+Example ex_evd_parked : forall n nl, exists s, reachable_if false n nl react0 any_label true true s /\
   g_ist (s_g s) = ILive /\ l_pc (g_il (s_g s)) = PIEvWait /\ c_q (g_ci (s_g s)) = [Some 3] /\
   readable (s_g s) CI = false /\ l_pc (s_l s 0) = PStartSpawned.
 Proof.
-  intros n.
+  intros n nl.
   by_run [LBegin 0 (OSend CI (Some 3)); LStep (U 0) CRun; LStep (U 0) CRun;
           LBegin 0 OStart; LStep (U 0) CRun; LStep (U 0) CRun;
           LStep I CRun; LStep I CRun; LStep I CRun; LStep I CRun; LStep I CRun] true true.
@@ -622,11 +689,11 @@ Qed.
 
 (* the schedule that lost the wake-up before the repair (refute_labels), on the repaired order: the owner finds the
    Message under the lock and signals; the event-driven thread's select() is satisfiable *)
-Example ex_race_repaired : forall n, exists s, reachable_if false n react0 any_label true true s /\
+Example ex_race_repaired : forall n nl, exists s, reachable_if false n nl react0 any_label true true s /\
   g_ist (s_g s) = ILive /\ l_pc (g_il (s_g s)) = PIEvWait /\ c_q (g_ci (s_g s)) = [Some 7] /\
   readable (s_g s) CI = true.
 Proof.
-  intros n.
+  intros n nl.
   by_run [LBegin 0 OStart; LStep (U 0) CRun;
           LBegin 1 (OSend CI (Some 7)); LStep (U 1) CRun; LStep (U 1) CRun;
           LStep (U 0) CRun; LStep (U 0) CRun; LStep (U 0) CRun; LStep (U 0) CRun;
@@ -635,9 +702,9 @@ Proof.
 Qed.
 
 (* a state in which nothing can move *)
-Example ex_stuck : forall n, exists s, reachable_if false n react0 any_label true false s /\
-  (forall w c, sys_step false n react0 s (LStep w c) = None).
+Example ex_stuck : forall n nl, exists s, reachable_if false n nl react0 any_label true false s /\
+  (forall w c, sys_step false n nl react0 s (LStep w c) = None).
 Proof.
-  intros n. exists (sys0 true false). split; [apply reach_init|]. intros [t|] []; reflexivity.
+  intros n nl. exists (sys0 true false). split; [apply reach_init|]. intros [t|] []; reflexivity.
 Qed.
 
